@@ -157,13 +157,13 @@ def plans(prop, tier):
             P.append((k, True, 'ret', 2, ('pause',)))
             P.append((k, False, 'ret', 0, (), None, 'us_none'))        # init_state 5, last value assigned in the child: None
             P.append((k, False, 'ret', 0, (), None, 'us_zero'))        # init_state 7, no assignment in the child at all
-        for mode in ('ctx', 'ctx_zero'):
-            P.append(('remote', False, 'ret', 0, ('pause',) if mode == 'ctx' else (), None, mode))      # worker created within a RemoteContext
             if k != 'thread':
                 P.append((k, False, 'linger', 0, (), None, None))      # reported, but the child process lingers
                 P.append((k, False, 'linger', 0, (), None, 'linger_term'))     # ... and is then force-terminated by an impatient caller
             for e in ('ret', 'exc'):
                 P.append((k, True, e, 2, (), None, 'restart'))         # chains of restarts from a dead worker
+        for mode in ('ctx', 'ctx_zero'):
+            P.append(('remote', False, 'ret', 0, ('pause',) if mode == 'ctx' else (), None, mode))      # worker created within a RemoteContext
     return P
 
 
@@ -258,6 +258,7 @@ def run(prop, tier, replay=None):
                     if len(longest) < 12:
                         raise MachineryError('the 32 MB result was not read in pieces (%d line events in _recv_exact): no mid-message point' % len(longest))
                     pts = [longest[len(longest) * q // 8] for q in (1, 2, 3, 4, 5, 6, 7)]
+                    extra = {'fpause_wait': 12}
                 if obsmode == 'ctx':
                     extra = {'in_context': True, 'init_state': 40}
                 if obsmode == 'double':
